@@ -2,7 +2,7 @@
    app <id> <nParams> <nResults> <hasRet> <args> <rets>   -> app <id> conf= out= in= dropped=
    visit <id> <nParams> <nResults> <i> <ptrmask> <residx,…> <args> <rets>
         -> vis <id> conv= reported=R<j>,A<k>,…  visited=<n>
-   link <id> <static|-> <invoke 0/1> <methodKey> <cg,…|-> <ifaceContract parent|-|nil> <funcContracts: name=1,…|-> <built: name,…|->
+   link <id> <static|-> <invoke 0/1> <methodKey> <cg,…|-> <ifaceContract parent|-|nil> <funcContracts: name,…|-> <built: name,…|-> <other interface-contract keys|->
         -> lnk <id> callees=<name:type,…> linked=<contract:parent:iface|body:name|none per callee>
    matrices: rows separated by ';', entries by ',', "-" = no rows.                                     -/
 import Argot.Model.Contract
@@ -69,11 +69,13 @@ partial def loop (h : IO.FS.Stream) : IO Unit := do
       IO.println s!"vis\t{id}\tconv={b run.converged}\treported={joinOr (sortStrings rep)}\tvisited={run.visited.length}"
     | _, _, _, _, _, _ => IO.println s!"bad-record\t{id}"
     loop h
-  | ["link", id, st, inv, mk, cg, ic, fcs, built] =>
+  | ["link", id, st, inv, mk, cg, ic, fcs, built, oic] =>
     let fcl := parseList fcs
+    let oicl := parseList oic
     let env : Env String := {
       contracts := fun k =>
         if k == mk && ic != "-" then (if ic == "nil" then some none else some (some ⟨ic, ⟨[], []⟩, true⟩))
+        else if oicl.contains k then some (some ⟨cg, ⟨[[0]], [[0]]⟩, true⟩)  -- contracts of other interfaces (e.g. the declaring one)
         else if fcl.contains k then some (some ⟨k, ⟨[], []⟩, false⟩) else none,
       keys := fun _ => none, impls := fun _ => [], built := fun k => if (parseList built).contains k then some k else none,
       predef := fun _ => none }
